@@ -122,6 +122,9 @@ func checkArc(c Case) error {
 	ex, ey := toPx(x2, y2)
 	startPx, startPy := toPx(x1, y1)
 	coordMag := math.Max(math.Max(math.Abs(ex), math.Abs(ey)), math.Max(math.Abs(startPx), math.Abs(startPy))) + 1
+	// the map computes scale*(x - Min) in float32: when x is close to Min the
+	// rounding error is relative to |x| + |Min|, not to the (small) result
+	coordMag += math.Max((math.Max(math.Abs(x1), math.Abs(x2))+math.Abs(float64(vb[0])))*sx, (math.Max(math.Abs(y1), math.Abs(y2))+math.Abs(float64(vb[1])))*sy)
 
 	rx, ry := math.Abs(float64(c.RX)), math.Abs(float64(c.RY))
 	if !(rx > 0 && ry > 0) {
